@@ -5,6 +5,7 @@ import (
 	"bytes"
 	"fmt"
 	"io"
+	"strings"
 
 	"github.com/gobwas/ws"
 	"github.com/gobwas/ws/wsutil"
@@ -160,82 +161,94 @@ func main() {
 						for _, offOp := range []byte{1, 2} {
 							for _, offFin := range []bool{true, false} {
 								for _, consume := range []string{"Discard", "Read"} {
-									side, firstOp, cause, offOp, offFin, consume := side, firstOp, cause, offOp, offFin, consume
-									t.Do(func() string {
-										return fmt.Sprintf("%s first=op%x- cause=%s then offender=op%x fin=%v consume=%s", side, firstOp, cause, offOp, offFin, consume)
-									}, func() *explore.Fail {
-										mk := func(o byte, fin bool, p []byte) []byte {
-											return refmodel.Frame{H: refmodel.Hdr{Fin: fin, Op: o, Masked: side == streams.Server, Mask: [4]byte{4, 3, 2, 1}}, Payload: p}.Wire()
-										}
-										first := mk(firstOp, false, []byte("a"))
-										var mid []byte
-										if cause == "handler-error-on-empty-ping" {
-											mid = mk(9, true, nil)
-										}
-										data := append(append(append(append([]byte{}, first...), mid...), mk(offOp, offFin, marker[:8])...), canary(side)...)
-										src := &hiccupSrc{data: data, at: -1}
-										if cause == "transient-error-at-frame-boundary" {
-											src.at = len(first)
-										}
-										rd := &wsutil.Reader{Source: src, State: drivers.State(side)}
-										errHandler := fmt.Errorf("handler says no")
-										fired := false
-										rd.OnIntermediate = func(h ws.Header, r io.Reader) error {
-											if !fired {
-												fired = true
-												return errHandler
+									// between the recoverable error and the offender the peer may send further
+									// control frames; they do not end the open message either
+									for _, extra := range []string{"", "ping", "pong", "ping+pong"} {
+										side, firstOp, cause, offOp, offFin, consume, extra := side, firstOp, cause, offOp, offFin, consume, extra
+										t.Do(func() string {
+											return fmt.Sprintf("%s first=op%x- cause=%s then [%s] then offender=op%x fin=%v consume=%s", side, firstOp, cause, extra, offOp, offFin, consume)
+										}, func() *explore.Fail {
+											mk := func(o byte, fin bool, p []byte) []byte {
+												return refmodel.Frame{H: refmodel.Hdr{Fin: fin, Op: o, Masked: side == streams.Server, Mask: [4]byte{4, 3, 2, 1}}, Payload: p}.Wire()
 											}
-											return nil
-										}
-										if _, err := rd.NextFrame(); err != nil {
-											return explore.Failf("harness-first-frame", "%v", err)
-										}
-										var got []byte
-										var lastErr error
-										sawRecoverable := false
-										for i := 0; i < 8; i++ {
-											var err error
-											if consume == "Discard" {
-												err = rd.Discard()
-											} else {
-												var p []byte
-												p, err = io.ReadAll(rd)
-												got = append(got, p...)
+											first := mk(firstOp, false, []byte("a"))
+											var mid []byte
+											if cause == "handler-error-on-empty-ping" {
+												mid = mk(9, true, nil)
 											}
-											lastErr = err
-											if err == errHandler || err == errTransient {
-												sawRecoverable = true
-												continue // the caller carries on
+											for _, x := range strings.Split(extra, "+") {
+												switch x {
+												case "ping":
+													mid = append(mid, mk(9, true, nil)...)
+												case "pong":
+													mid = append(mid, mk(10, true, []byte("po"))...)
+												}
 											}
-											if err != nil {
-												break
+											data := append(append(append(append([]byte{}, first...), mid...), mk(offOp, offFin, marker[:8])...), canary(side)...)
+											src := &hiccupSrc{data: data, at: -1}
+											if cause == "transient-error-at-frame-boundary" {
+												src.at = len(first)
 											}
-											// the message was reported complete: start the next one
-											h, err := rd.NextFrame()
-											if err != nil {
+											rd := &wsutil.Reader{Source: src, State: drivers.State(side)}
+											errHandler := fmt.Errorf("handler says no")
+											fired := false
+											rd.OnIntermediate = func(h ws.Header, r io.Reader) error {
+												if !fired && cause == "handler-error-on-empty-ping" {
+													fired = true
+													return errHandler
+												}
+												return nil
+											}
+											if _, err := rd.NextFrame(); err != nil {
+												return explore.Failf("harness-first-frame", "%v", err)
+											}
+											var got []byte
+											var lastErr error
+											sawRecoverable := false
+											for i := 0; i < 8; i++ {
+												var err error
+												if consume == "Discard" {
+													err = rd.Discard()
+												} else {
+													var p []byte
+													p, err = io.ReadAll(rd)
+													got = append(got, p...)
+												}
 												lastErr = err
-												break
+												if err == errHandler || err == errTransient {
+													sawRecoverable = true
+													continue // the caller carries on
+												}
+												if err != nil {
+													break
+												}
+												// the message was reported complete: start the next one
+												h, err := rd.NextFrame()
+												if err != nil {
+													lastErr = err
+													break
+												}
+												p, err := io.ReadAll(rd)
+												got = append(got, p...)
+												_ = h
+												lastErr = err
+												if err != nil {
+													break
+												}
 											}
-											p, err := io.ReadAll(rd)
-											got = append(got, p...)
-											_ = h
-											lastErr = err
-											if err != nil {
-												break
+											if !sawRecoverable {
+												return explore.Failf("harness-no-recoverable-error", "last err %v", lastErr)
 											}
-										}
-										if !sawRecoverable {
-											return explore.Failf("harness-no-recoverable-error", "last err %v", lastErr)
-										}
-										if hasTaint(got) {
-											return explore.Failf("offender-delivered-after-recoverable-error:"+cause, "data %q, last err %v", got, lastErr)
-										}
-										if pe, ok := lastErr.(ws.ProtocolError); !ok || pe != ws.ErrProtocolContinuationExpected {
-											return explore.Failf("offender-not-rejected-after-recoverable-error:"+cause, "err=%v", lastErr)
-										}
-										t.Outcome("rejected")
-										return nil
-									})
+											if hasTaint(got) {
+												return explore.Failf("offender-delivered-after-recoverable-error:"+cause, "data %q, last err %v", got, lastErr)
+											}
+											if pe, ok := lastErr.(ws.ProtocolError); !ok || pe != ws.ErrProtocolContinuationExpected {
+												return explore.Failf("offender-not-rejected-after-recoverable-error:"+cause, "err=%v", lastErr)
+											}
+											t.Outcome("rejected")
+											return nil
+										})
+									}
 								}
 							}
 						}
